@@ -431,7 +431,7 @@ func tthHostileCases(c *Ctx) []json.RawMessage {
 	}
 	// section orders, repeated sections (later entries win), interleaved padding, count 0
 	sec := map[string]string{
-		"s1": "01" + "0001" + "0001" + "61" + "0001" + "41", // str {a:A}
+		"s1": "01" + "0001" + "0001" + "61" + "0001" + "41",   // str {a:A}
 		"s2": "01" + "0001" + "0001" + "61" + "0002" + "4242", // str {a:BB}
 		"s0": "01" + "0000",
 		"i1": "10" + "0001" + "0007" + "0001" + "31",
